@@ -492,6 +492,12 @@ def t3_cases(tier):
                     continue        # 4 KiB tags: reduced Nbr x Nbw grid
                 # physical blocks behind Nmaxb: one for odd Nbr, none for even
                 out.append(T3Case(nbr, nbw, nmaxb, spare=nbr % 2))
+    # tags of more than 64 KiB: Ln needs its upper octet (3-octet block list
+    # elements, block numbers above 4095)
+    out.append(T3Case(15, 12, 4100, spare=1))
+    if tier == 'thorough':
+        out.append(T3Case(4, 3, 4097, spare=0))
+        out.append(T3Case(12, 8, 8200, spare=1))
     blocks = range(1, 65) if tier == 'thorough' else (1, 2, 3, 4, 5, 8, 15, 16,
                                                       17, 31, 32, 33, 63, 64)
     for nb in blocks:
@@ -617,8 +623,9 @@ GRID_DOC = {
         'T1,T2 lengths': 'all 0..cap+1 if cap<=300 else 0..3,252..258,'
                          'cap-3..cap+1, m-1..m+1 for multiples m of 64',
         'T3': 'Nbr {1,2,4,12,15} x Nbw {1,2,4,12,13} x Nmaxb {1,2,3,13,16,17,'
-              '255,256}; lengths as T1/T2 with multiples of 256; emulation '
-              'with 14 block counts x 4 (Nbr,Nbw)',
+              '255,256}; lengths as T1/T2 with multiples of 256; one tag '
+              'with Nmaxb 4100 (lengths 0,1,255,256,65535..65537,65552,65792,'
+              'cap-1..cap+1); emulation with 14 block counts x 4 (Nbr,Nbw)',
         'T4': 'mapping x MLe x MLc x mfs full product, FSCI 0..8 and A/B '
               'rotated; lengths all if cap<=100 else boundary sets + '
               'multiples of max(MLc,64); plus one mapping 3.0 tag with a '
@@ -634,7 +641,9 @@ GRID_DOC = {
                          'the write unit (cap<=520) / of 16 (larger)',
         'T3': 'Nbr 1..15 x Nbw 1..13 for Nmaxb {1,2,3,13,16,17}; Nbr '
               '{1,2,3,4,5,8,12,15} x Nbw {1,2,3,4,8,12,13} for Nmaxb {255,256} '
-              'with multiples of 64; emulation with 1..64 blocks x 4 (Nbr,Nbw)',
+              'with multiples of 64; Nmaxb 4097, 4100, 8200 with the lengths '
+              'around 65536 / 131072 / cap; emulation with 1..64 blocks x 4 '
+              '(Nbr,Nbw)',
         'T4': 'full product + FSCI x A/B crossed with 4 (MLe,MLc) corners; '
               'lengths all if cap<=300 else boundary sets + multiples of '
               'max(MLc,16); plus the 33368 byte mapping 3.0 tag (additionally '
@@ -646,6 +655,12 @@ GRID_DOC = {
 def plan(case, tier):
     """(lengths, combos) explored for `case` in `tier` (see GRID_DOC)."""
     ls, combos = _plan(case, tier)
+    if case.kind == 'T3' and case.ref_capacity() > 0xFFFF:
+        cap = case.ref_capacity()
+        ls = sorted(x for x in set(
+            [0, 1, 255, 256, 0xFFFF, 0x10000, 0x10001, 0x10010, 0x10100,
+             0x20000 - 1, 0x20000, 0x20001, cap - 1, cap, cap + 1])
+            if x <= cap + 1)
     if case.kind == 'T4' and case.ref_capacity() > 0x8000:
         # around the first READ / UPDATE BINARY offset that needs 16 bits
         extra = set(range(0x8000 - 8, 0x8000 + 4)) | {32890, 32891, 32892}
